@@ -343,7 +343,8 @@ func structural(f string, raw []byte, p *dec.Package, signed bool, hasScripts bo
 func c04(run *ev.Run, tier string) {
 	n := ncases(100, 1500, tier)
 	run.Rule = "cases = C01-style generated configurations, each built unsigned and (deb, rpm, apk) signed with the repository's unprotected test keys, all deb/rpm compressions round-robin; every output is parsed end to end by the harness readers (raw tar walker + archive/tar reader, ar, gzip member splitter, rpm lead/header/cpio, mtree) and every structural rule of the statement is asserted; deb output additionally goes through dpkg-deb -I/-c, xz/lzma payloads through the xz CLI. non-trivial = payload with >=1 directory, >=1 regular file and >=2 nesting levels; distinct = feature set x signed"
-	var archives, rules, dpkgRuns, xzRuns int64
+	var archives, rules, dpkgRuns, xzRuns, tarRuns int64
+	haveTar := have("tar")
 	var mu sync.Mutex
 	perFormat := map[string]int64{}
 	haveDpkg := have("dpkg-deb")
@@ -413,6 +414,38 @@ func c04(run *ev.Run, tier string) {
 						}
 					}
 				}
+				// GNU tar as a reader that shares nothing with the writer
+				if haveTar && (tier == "thorough" || c.Index%3 == 0) {
+					switch f {
+					case "deb", "ipk":
+						if p.DataTar != nil {
+							if unc, err := dec.Decompress(p.DataAlgo, p.DataRaw, false); err == nil {
+								ps = append(ps, gnuTarAgrees("data.tar", unc, p.DataTar)...)
+								atomic.AddInt64(&tarRuns, 1)
+							}
+						}
+						if p.Control != nil {
+							if unc, _, err := dec.Gunzip(p.CtrlRaw); err == nil {
+								ps = append(ps, gnuTarAgrees("control.tar", unc, p.Control)...)
+								atomic.AddInt64(&tarRuns, 1)
+							}
+						}
+					case "apk":
+						var cat []byte
+						for _, m := range p.GzMembers {
+							cat = append(cat, m.Data...)
+						}
+						ps = append(ps, gnuTarAgrees("concatenation", cat, dec.ParseTar(cat))...)
+						atomic.AddInt64(&tarRuns, 1)
+					case "archlinux":
+						if p.Tar != nil {
+							if unc, err := dec.Unzstd(b.raw[f]); err == nil {
+								ps = append(ps, gnuTarAgrees("tar", unc, p.Tar)...)
+								atomic.AddInt64(&tarRuns, 1)
+							}
+						}
+					}
+				}
 				atomic.AddInt64(&archives, 1)
 				atomic.AddInt64(&rules, 1)
 				mu.Lock()
@@ -439,7 +472,8 @@ func c04(run *ev.Run, tier string) {
 	run.Set("archives_per_format", perFormat)
 	run.Set("dpkg_deb_runs", dpkgRuns)
 	run.Set("xz_cli_crosschecks", xzRuns)
-	run.Set("external_readers", map[string]bool{"dpkg-deb": haveDpkg, "xz": have("xz")})
+	run.Set("gnu_tar_reads", tarRuns)
+	run.Set("external_readers", map[string]bool{"dpkg-deb": haveDpkg, "xz": have("xz"), "GNU tar": haveTar})
 	run.Assume("rpm, cpio, zstd, bsdtar, apk and pacman CLIs are not installed: their formats are read by harness-owned parsers and by the decoder halves of the klauspost/ulikunitz libraries")
 }
 
@@ -608,4 +642,29 @@ func c04Spellings(run *ev.Run) {
 			}
 		}
 	}
+}
+
+// gnuTarAgrees feeds an (uncompressed) tar stream to GNU tar, an implementation
+// that shares nothing with Go's archive/tar, and compares the member names.
+func gnuTarAgrees(label string, b []byte, a *dec.TarArchive) []problem {
+	so, se, code, err := runCmd(b, "", nil, "tar", "--quoting-style=literal", "-tf", "-")
+	if err != nil {
+		return nil
+	}
+	if code != 0 {
+		return []problem{{label + "/gnu-tar-rejects", ev.Short(string(se), 300)}}
+	}
+	got := strings.Split(strings.TrimSuffix(string(so), "\n"), "\n")
+	if len(a.Entries) == 0 && len(got) == 1 && got[0] == "" {
+		return nil
+	}
+	if len(got) != len(a.Entries) {
+		return []problem{{label + "/gnu-tar-entry-count", fmt.Sprintf("GNU tar lists %d members, raw walker %d", len(got), len(a.Entries))}}
+	}
+	for i := range got {
+		if got[i] != a.Entries[i].Name {
+			return []problem{{label + "/gnu-tar-name", fmt.Sprintf("member %d: GNU tar %q, raw walker %q", i, got[i], a.Entries[i].Name)}}
+		}
+	}
+	return nil
 }
